@@ -507,6 +507,9 @@ def run_C10(run):
     # (4) abbreviations and steps as operands
     run.gen_and_parse("MC_Syntax", consts(sy, MaxOps=2, OperandIds={"a", "@a", "..", ".", "ax", "pred", "fn1"},
                                           OpIds={"/", "//", "|", "=", "and", "+", "*"}), "abbreviations", inv)
+    # (4a) names with '.', '-' and digits in non-initial position as operands of every operator
+    run.gen_and_parse("MC_Syntax", consts(sy, MaxOps=2, OperandIds={"a.b", "a-b", "a1", "a.1", "a-", "p:a.b", "1", "."} if not q else {"a.b", "a-b", "a.1", "a-", "1"},
+                                          OpIds=ALL_OPS), "odd-names", inv)
     # (4b) the expressions of the repository's own test suite through the reference lexer + parser
     run.gen_and_parse("MC_Corpus", {}, "corpus", ("Emit",))
     # (5) hook-independent: the VALUE of unparenthesised chains over constants must be the value of the reference grouping
@@ -561,6 +564,11 @@ def run_C06(run):
                        "unguarded_cycle_functions": sorted(cyc)})
     if cyc:
         run.notes.append("XStack: unguarded recursive cycle through %s (a lead; the verdict comes from pumping on the real code)" % sorted(cyc))
+    # (1b) expression-shaped inputs: every function with every tuple of 0-3 typed constant / path arguments, every operator
+    #      with every typed operand pair (the C15 matrix), through Compile / CompileWithNS / MustCompile
+    base15 = consts(BASE_EXPR, MaxNodes=1, UseCat=True, CatIds={1}, UseVal=False)
+    for fam in (("C15fn",) if q else ("C15fnwrap", "C15ops", "C15edges")):
+        run.gen_and_replay("MC_Expr", consts(base15, Family=fam), name="typed-" + fam, kind="total", render="both")
     # (2) pump every nesting pattern on the real code, each run in its own process (a stack overflow kills it)
     depths = [100, 10000, 1000000] if q else [100, 10000, 100000, 1000000, 10000000]
     npump = 0
